@@ -162,6 +162,8 @@ func (tg *TCPGroup) worker() {
 			tg.acceptCh <- c
 		})
 		if err != nil {
+			// the last member left while this connection was waiting: nobody will take it
+			_ = c.Close()
 			return
 		}
 	}
